@@ -47,7 +47,7 @@ func (o *c02Oracle) after(ch *chain, ci *callInfo) *Violation {
 		return violf("C02/supply-differs-from-balances", "%s: recorded supply %s, sum of all balances %s", where, v.Supply, sum)
 	}
 	for addr, coins := range v.Accounts {
-		if coins.IsAnyNegative() {
+		if anyNegative(coins) {
 			return violf("C02/negative-balance", "%s: account %s holds %s", where, addr, coins)
 		}
 	}
